@@ -197,7 +197,14 @@ func main() {
 		// long statements (well over a hundred tokens: list constructs repeated), and at every position around the powers of
 		// two and near the end a deleted / inserted / replaced token: buffers, windows and counters of the token source
 		// and of the parser must not depend on the length of the statement
-		for _, txt := range longStatements() {
+		span := 1 // quick tier: positions within 1 of each centre; thorough: within 3, and a 1400-token statement on top
+		longs := longStatements()
+		if *n > 5000 {
+			span = 3
+		} else {
+			longs = longs[:len(longs)-1]
+		}
+		for _, txt := range longs {
 			toks := gram.LexKinds(txt)
 			if len(toks) > 0 && toks[len(toks)-1] == gram.EOF {
 				toks = toks[:len(toks)-1]
@@ -205,7 +212,7 @@ func main() {
 			emit("long", toks)
 			pos := map[int]bool{}
 			for _, c := range []int{32, 64, 128, 256, 512, len(toks) - 2} {
-				for d := -3; d <= 3; d++ {
+				for d := -span; d <= span; d++ {
 					if c+d >= 0 && c+d < len(toks) {
 						pos[c+d] = true
 					}
@@ -429,8 +436,11 @@ func main() {
 			}
 			return gram.Lexeme(k)
 		}
+		// these two lists are da_alphabet / gb_alphabet of coq/Grammar/HooksInst.v (theorem C18_closure_alphabet: every token
+		// kind the regenerated attachment table lets reach the closures is in them)
 		daKinds := []int{int(lexer.ItemInsert), int(lexer.ItemDelete), int(lexer.ItemNode), int(lexer.ItemPredicate), int(lexer.ItemLiteral),
-			int(lexer.ItemData), int(lexer.ItemDot), int(lexer.ItemLBracket), int(lexer.ItemBinding)}
+			int(lexer.ItemData), int(lexer.ItemDot), int(lexer.ItemLBracket), int(lexer.ItemBinding),
+			int(lexer.ItemInto), int(lexer.ItemFrom), int(lexer.ItemRBracket), int(lexer.ItemSemicolon)}
 		gbKinds := []int{int(lexer.ItemBefore), int(lexer.ItemAfter), int(lexer.ItemBetween), int(lexer.ItemComma), int(lexer.ItemTime),
 			int(lexer.ItemPredicateBound), int(lexer.ItemSemicolon)}
 		for i := 0; i < *n; i++ {
@@ -535,7 +545,11 @@ func main() {
 		for _, k := range keys {
 			texts = append(texts, gram.Render(ws[k]))
 		}
-		texts = append(texts, longStatements()...)
+		if ls := longStatements(); *n > 1000 {
+			texts = append(texts, ls...)
+		} else {
+			texts = append(texts, ls[:len(ls)-1]...)
+		}
 		texts = append(texts, ``, `;`, `select ?s from ?a where {?s "unterminated`, `create graph ?a ?b /u<x`, "\xff\xfe select", `select ?s from ?a where {?s "p"@[] ?o} #comment`)
 		for i := 0; i < *n; i++ {
 			toks := g.RandomSentence(rng.Intn, 3+rng.Intn(6))
@@ -663,7 +677,8 @@ func longStatements() []string {
 		`select ?s0 from ?a where {` + rep(20, " . ", func(i int) string {
 			return fmt.Sprintf(`/u<a> as ?a%d type ?t%d id ?i%d "p"@[?w%d] as ?p%d id ?q%d at ?x%d ?o%d as ?b%d type ?c%d id ?d%d`, i, i, i, i, i, i, i, i, i, i, i)
 		}) + `};`,
-		`create graph ` + rep(700, ", ", v("g")) + `;`,
+		`create graph ` + rep(262, ", ", v("g")) + `;`,
+		`create graph ` + rep(700, ", ", v("g")) + `;`, // thorough tier only (kept last)
 	}
 }
 
